@@ -262,51 +262,82 @@ def judge_trace(ctx, trace, source, kd, classify=True):
 
 
 # --------------------------------------------------------------------------- self-test, replay
-def _prefix(trace, limit):
-    """The first runs of a trace (whole runs only, about `limit` lines)."""
-    lines = lib.read_lines(trace)[:limit + 400]
-    cuts = [i for i, l in enumerate(lines) if lib.is_new(l) and i <= limit]
-    return lines[:cuts[-1]] if len(cuts) > 1 else lines
+def clean_runs(trace, verdict, limit=4000):
+    """The runs (lists of lines) among the first `limit` lines of a trace in which the monitor judged every event as
+    conforming to the ideal specification: no violation, no deviation.  Victims of the self-test are taken from
+    these only, so the test means the same on a tree that behaves differently."""
+    lines = lib.read_lines(trace)[:limit]
+    bad = set(verdict["violations"]) | {d[0] for d in verdict["deviations"]}
+    starts = [i for i, l in enumerate(lines) if lib.is_new(l)]
+    runs = []
+    for a, b in zip(starts, starts[1:]):           # the last (possibly cut) run is left out
+        if not any(a < x <= b for x in bad):       # verdict lines are 1-based: the run is lines a+1 .. b
+            runs.append(lines[a:b])
+    return runs
 
 
-def selftest(ctx, fields_trace, conc_trace, kd):
-    """Binding self-test, one monitor run over  base | corrupted | dropped | base' | data-reply :
-    corrupt one typed cell / drop one event / turn the close of a malformed request into a data reply -> the
-    monitor must flag exactly that (runs are judged independently, so the copies do not disturb each other)."""
-    f = _prefix(fields_trace, 700)
-    c = _prefix(conc_trace, 500)
-    ia = ib = None
-    for i, l in enumerate(f):
-        e = json.loads(l)
-        if e.get("op") == "query" and e["res"]["out"] == "rows" and e["ep"] == "versions" and ia is None and i > 5:
-            ia = i
-        elif e.get("op") == "query" and ia is not None and ib is None and i > ia + 8 and i + 1 < len(f) and not lib.is_new(f[i + 1]):
-            ib = i
-    ic = next((i for i, l in enumerate(c) if '"op":"finish"' in l and '"out":"closed"' in l), None)
-    if ia is None or ib is None or ic is None:
-        raise lib.ToolError("binding self-test: no suitable events in the traces")
-    e = json.loads(f[ia])
-    cell = next(x for x in e["res"]["rows"][-1] if x["n"] == "BuildConfig")
-    cell["v"] = cell["v"][:-1] + ("0" if cell["v"][-1] != "0" else "1")
-    fa = list(f); fa[ia] = json.dumps(e, separators=(",", ":"))
-    fb = list(f); del fb[ib]
-    e = json.loads(c[ic])
-    e["res"]["outs"] = [{"out": "reply", "status": 200, "rows": 7, "bytes": 700}]
-    cc = list(c); cc[ic] = json.dumps(e, separators=(",", ":"))
-    segs = [("f0", f), ("fa", fa), ("fb", fb), ("c0", c), ("cc", cc)]
-    path = ctx.path("selftest.ndjson")
-    open(path, "w").write("\n".join(l for _, seg in segs for l in seg) + "\n")
-    v = lib.tlc_trace(ctx, MODULE_T, t_cfg(ctx, kd), path)
-    got, off = {}, 0
-    for name, seg in segs:
-        got[name] = {x - off for x in v["violations"] if off < x <= off + len(seg)}
-        off += len(seg)
-    res = {"corrupt_one_field_flagged": got["fa"] == got["f0"] | {ia + 1},
-           "drop_one_event_flagged": (ib + 1) in got["fb"] and len(got["fb"]) > len(got["f0"]),
-           "data_reply_to_malformed_flagged": got["cc"] == got["c0"] | {ic + 1}}
+def _corrupt(cell):
+    if cell["k"] == "empty":
+        cell["k"], cell["v"] = "str", "x"
+    else:
+        cell["v"] = cell["v"][:-1] + ("0" if cell["v"][-1:] != "0" else "1")
+
+
+def selftest(ctx, fields_trace, fields_verdict, conc_trace, conc_verdict, kd):
+    """Binding self-test on conforming runs of the traces at hand, one monitor run over all variants:
+    (a) one variant per judged column of a versions row and of a cdns row with that cell corrupted,
+    (b) a run with one event dropped, (c) a malformed request whose close is turned into a data reply.
+    In every variant the monitor must flag exactly the manipulated event (for (b): the event after the gap)."""
+    variants = []        # (name, lines, expected 1-based line within the variant)
+    fruns = clean_runs(fields_trace, fields_verdict)
+    want = {"versions": ["BuildConfig", "CDNConfig", "KeyRing", "BuildId", "VersionsName", "ProductConfig"],
+            "cdns": ["Path", "Hosts", "ConfigPath"]}
+    for ep, cols in want.items():
+        hit = None
+        for run in fruns:
+            for i, l in enumerate(run):
+                e = json.loads(l)
+                # for cdns prefer a build with a CDN path of its own (Path / ConfigPath come from the record)
+                if e.get("op") == "query" and e.get("ep") == ep and e["res"]["out"] == "rows" and \
+                        (ep != "cdns" or json.loads(run[0])["db"][0]["cdn_path"]):
+                    hit = (run, i)
+                    break
+            if hit:
+                break
+        if not hit:
+            continue
+        run, i = hit
+        for col in cols:
+            e = json.loads(run[i])
+            _corrupt(next(x for x in e["res"]["rows"][-1] if x["n"] == col))
+            v = list(run); v[i] = json.dumps(e, separators=(",", ":"))
+            variants.append((f"corrupt_{ep}_{col}", v, i + 1))
+    run = next((r for r in fruns if len(r) >= 5), None)
+    if run:
+        v = list(run); del v[2]
+        variants.append(("drop_one_event", v, 3))
+    for run in clean_runs(conc_trace, conc_verdict):
+        i = next((i for i, l in enumerate(run) if '"op":"finish"' in l and '"out":"closed"' in l), None)
+        if i is not None:
+            e = json.loads(run[i])
+            e["res"]["outs"] = [{"out": "reply", "status": 200, "rows": 7, "bytes": 700}]
+            v = list(run); v[i] = json.dumps(e, separators=(",", ":"))
+            variants.append(("data_reply_to_malformed", v, i + 1))
+            break
+    res = {}
+    if variants:
+        path = ctx.path("selftest.ndjson")
+        open(path, "w").write("\n".join(l for _, seg, _ in variants for l in seg) + "\n")
+        verdict = lib.tlc_trace(ctx, MODULE_T, t_cfg(ctx, kd), path)
+        off = 0
+        for name, seg, exp in variants:
+            got = {x - off for x in verdict["violations"] if off < x <= off + len(seg)}
+            res[name + "_flagged"] = got == {exp}
+            off += len(seg)
+    for name in [f"corrupt_{ep}_{c}" for ep, cs in want.items() for c in cs] + ["drop_one_event", "data_reply_to_malformed"]:
+        res.setdefault(name + "_flagged", "skipped: no conforming run with such an event in this execution")
     ctx.cov["binding_selftest"] = res
-    if not all(res.values()):
-        raise lib.ToolError(f"binding self-test failed: {res}")
+    return all(v is not False for v in res.values())
 
 
 def replay(ctx, kd):
@@ -358,7 +389,6 @@ def run(ctx):
                 ctx.cov["samples"].append({"source": f"MC_Ribbit family={fam}", "trace": [json.loads(x) for x in ls[s:e]][:12]})
             if fam in ("fields", "conc"):     # the two large ones are judged on their own, as soon as they exist
                 pending.append((fam, trace, judging.submit(judge_only, ctx, trace, fam, kd)))
-        selftested = judging.submit(selftest, ctx, traces["fields"], traces["conc"], kd)
         for fam in ("slow", "flood"):
             traces[fam] = slow[fam].result()
             total += gen[fam][1]
@@ -372,10 +402,14 @@ def run(ctx):
                     for line in f:
                         out.write(line)
         pending.append(("+".join(rest), merged, judging.submit(judge_only, ctx, merged, "rest", kd)))
-        model.result()
-        selftested.result()
-        for fam, trace, fut in pending:
+        futs = {fam: fut for fam, _, fut in pending}
+        # (the small families are still being judged while the self-test runs)
+        binding_ok = selftest(ctx, traces["fields"], futs["fields"].result(), traces["conc"], futs["conc"].result(), kd)
+        for fam, trace, fut in pending:      # VIOLATION lines first: they are the result of the check
             conclude(ctx, fut.result(), trace, f"MC_Ribbit family={fam}")
+        model.result()
+        if not binding_ok and not ctx.violations:
+            raise lib.ToolError(f"binding self-test failed: {ctx.cov['binding_selftest']}")
     finally:
         waiting.shutdown(wait=True, cancel_futures=True)
         judging.shutdown(wait=True, cancel_futures=True)
